@@ -3,7 +3,7 @@ from .. import lib, runner
 
 PROP = "C13"
 THEOREMS = ["Ev.add_numbers_in_order", "Ev.index_stable", "Ev.index_dense", "Ev.frozen_refuses_add", "Ev.trg_by_mode", "Ev.pending_step", "Ev.never_lost", "Ev.line_iff", "Ev.bit_k_is_source_k"]
-IMPORTS = ["SocVerif"]
+IMPORTS = ["SocVerif.Props.C13"]
 
 
 def run(rep, tier):
